@@ -1,0 +1,5 @@
+//go:build !verif
+
+package seq
+
+func vtrace[V any](string, *co[V], int) {}
